@@ -38,6 +38,72 @@ REMOVE_PBC_Q = "PyMatterSim.utils.pbc.remove_pbc"
 _PROBES: Dict[Term, Tuple] = {}
 
 
+def lift_transformed_difference(t: Term) -> Term:
+    """g(P)[a] - g(P)[b], with P a snapshot's positions and g a row-wise linear map of the coordinates (products with the cell
+    matrix or its inverse, solves, transposes), is g(P[a] - P[b]).  The rewrite is applied only when the map is built from
+    those operations alone AND commutes with row selection on a concrete array (guard against a transposed intermediate)."""
+    from . import c02
+    import numpy as np
+
+    def pos_atoms(z):
+        return [y for y in walk(z) if y[0] == "attr" and y[2] == "positions"]
+
+    def linear_in(A, P):
+        """every path from A down to P passes only row-wise linear operations"""
+        if A == P:
+            return True
+        k = A[0]
+        if k == "attr" and A[2] == "T":
+            return linear_in(A[1], P)
+        if k == "call" and A[1] in ("numpy.dot", "numpy.matmul", ".dot", "numpy.linalg.solve", "numpy.transpose", ".transpose", "numpy.asarray", "numpy.array", ".copy") and not [kk for kk, _ in A[3] if kk != "@"]:
+            with_p = [x for x in A[2] if P in list(walk(x))]
+            return len(with_p) == 1 and linear_in(with_p[0], P)
+        if k == "bin" and A[1] == "@":
+            with_p = [x for x in (A[2], A[3]) if P in list(walk(x))]
+            return len(with_p) == 1 and linear_in(with_p[0], P)
+        if k == "bin" and A[1] in ("*", "/"):
+            if P in list(walk(A[3])):
+                return A[1] == "*" and P not in list(walk(A[2])) and linear_in(A[3], P)
+            return linear_in(A[2], P)
+        return False
+    for x in walk(t):
+        if not (x[0] == "bin" and x[1] == "-" and x[2][0] == "sub" and x[3][0] == "sub" and x[2][1] == x[3][1]):
+            continue
+        A = x[2][1]
+        ps = pos_atoms(A)
+        if (A[0] == "attr" and A[2] == "positions") or len(set(ps)) != 1:
+            continue
+        P = ps[0]
+        if not linear_in(A, P):
+            continue
+        Hs = [y for y in walk(A) if y[0] == "attr" and y[2] == "hmatrix"]
+        # concrete guard: the map commutes with row selection
+        try:
+            rng = np.random.default_rng(7)
+            ok = True
+            for d in (2, 3):
+                Hm = np.tril(rng.uniform(-1.5, 1.5, (d, d)))
+                Hm[np.diag_indices(d)] = rng.uniform(2.0, 4.0, d)
+                Pm = rng.uniform(-5, 5, (5, d))
+                env = {P: Pm}
+                for h in Hs:
+                    env[h] = Hm
+                full = c02.eval_np(A, env)
+                env2 = dict(env)
+                env2[P] = Pm[1:3]
+                part = c02.eval_np(A, env2)
+                if np.shape(full) != (5, d) or not np.allclose(full[1:3], part):
+                    ok = False
+            if not ok:
+                continue
+        except Exception:  # noqa
+            continue
+        R = ("bin", "-", ("sub", P, x[2][2]), ("sub", P, x[3][2]))
+        gR = subst(A, lambda y: R if y == P else None)
+        return subst(t, lambda y: gR if y == x else None)
+    return t
+
+
 def inline_image(t: Term, record: bool = True):
     """Is `t` an inline re-implementation of the minimum image  R - (mask (.) nearest(R H^-1)) H ?  The roles are read from
     the term (R: the difference of positions, H: a snapshot's hmatrix, mask: ppp) and the expression is decided with the
@@ -49,6 +115,11 @@ def inline_image(t: Term, record: bool = True):
         return _PROBES[t]
     from . import c02
     res = ("unknown", "no roles")
+    t0 = t
+    try:
+        t = lift_transformed_difference(t)
+    except Exception:  # noqa
+        t = t0
     try:
         def pos_atom(z):
             while True:
@@ -118,26 +189,90 @@ def inline_image(t: Term, record: bool = True):
     except Exception as e:  # noqa
         res = ("unknown", f"{type(e).__name__}: {e}")
     if record or res[0] == "ok":
-        INLINE_IMAGES[t] = res
+        INLINE_IMAGES[t0] = res
     else:
-        _PROBES[t] = res
+        _PROBES[t0] = res
     return res
+
+
+_IMG_CALLS = {"numpy.dot", "numpy.matmul", ".dot", "numpy.linalg.solve", "numpy.linalg.inv", "numpy.rint", "numpy.round", "numpy.around", "numpy.floor",
+              "numpy.ceil", "numpy.trunc", "numpy.fix", "numpy.where", "numpy.transpose", ".transpose", "numpy.asarray", "numpy.array", ".copy", "numpy.abs",
+              "numpy.sign", ".astype", "numpy.mod", "numpy.remainder", "numpy.fmod", "numpy.atleast_2d", ".reshape", "numpy.diag", "numpy.select"}
+
+
+def image_grammar(x: Term) -> bool:
+    """`x` is a function of coordinates, cell data, the periodicity mask and constants only, built from the operations an
+    (inline) minimum image consists of - i.e. it could be a displacement vector in some frame, not yet a metric quantity."""
+    k = x[0]
+    if k in ("const", "mod", "builtin", "loopvar", "cvar", "slice"):
+        return all(image_grammar(y) for y in x[1:] if isinstance(y, tuple) and y and isinstance(y[0], str)) if k == "slice" else True
+    if k == "sym":
+        # roots: a snapshot / instance / trajectory, the mask, a cell handed in as a parameter; any other parameter is foreign data
+        return x[1] in ("ppp", "hmatrix", "boxlength", "snapshot", "snapshots", "self", "positions", "pos", "cell", "box") or x[1].startswith("snapshot")
+    if k == "attr":
+        return x[2] in ("positions", "hmatrix", "boxlength", "boxbounds", "T", "ppp", "shape", "nparticle", "ndim", "snapshots") and image_grammar(x[1])
+    if k in ("sub", "elem"):
+        return image_grammar(x[1])      # the index may be anything (neighbour tables, loop counters)
+    if k == "bin":
+        return x[1] in ("+", "-", "*", "/", "@", "%", "//") and image_grammar(x[2]) and image_grammar(x[3])
+    if k == "un":
+        return image_grammar(x[2])
+    if k == "cmp":
+        return image_grammar(x[2]) and image_grammar(x[3])
+    if k in ("tuple", "list"):
+        return all(image_grammar(y) for y in x[1])
+    if k == "phi":
+        return all(image_grammar(y) for y in x[1:])
+    if k == "call":
+        return isinstance(x[1], str) and x[1] in _IMG_CALLS and all(image_grammar(y) for y in x[2]) and all(image_grammar(v) for kk, v in x[3] if kk != "@")
+    return False
+
+
+def image_candidates(t: Term) -> List[Term]:
+    """Sub-terms that contain a rounding of coordinates and are closed under the image grammar, outermost first.  Only an
+    OUTERMOST candidate can be judged wrong: an inner one is an intermediate (e.g. the wrapped fractional vector) and differs
+    from the Cartesian reference by construction."""
+    ROUND = ("numpy.rint", "numpy.round", "numpy.around")
+    cands = []
+
+    def visit(x, inside):
+        if not (isinstance(x, tuple) and x and isinstance(x[0], str)):
+            if isinstance(x, tuple):
+                for y in x:
+                    visit(y, inside)
+            return
+        is_c = (not inside) and x[0] in ("bin", "call", "attr", "sub") and image_grammar(x) and \
+            any(y[0] == "call" and y[1] in ROUND for y in walk(x)) and any(y[0] == "attr" and y[2] == "positions" for y in walk(x))
+        if is_c:
+            cands.append(x)
+        for y in x[1:]:
+            visit(y, inside or is_c)
+    visit(t, False)
+    return cands
 
 
 def find_inline_image(t: Term):
     """Search a value for an inline minimum-image expression (a sub-term containing a rounding call and one displacement)
     and decide it; the decisive verdict is recorded (and reported by the driver), probes are not."""
+    t = _inline(t) if _PKG is not None else t
+    outer = image_candidates(t)
+    for c in outer:
+        v = inline_image(c, record=False)
+        if v[0] in ("ok", "bad"):
+            INLINE_IMAGES[c] = v
+            return v
+    # an inner sub-term may still be the complete image (followed by further coordinate algebra): only a positive verdict counts
     cands = [x for x in walk(t) if x[0] in ("bin", "call") and any(y[0] == "call" and y[1] in ("numpy.rint", "numpy.round", "numpy.around") for y in walk(x))
              and any(y[0] == "attr" and y[2] == "positions" for y in walk(x))]
     cands.sort(key=lambda x: len(show(x)))
-    seen = set()
+    seen = set(outer)
     for c in cands:
         if c in seen:
             continue
         seen.add(c)
-        v = inline_image(_inline(c), record=False)
-        if v[0] in ("ok", "bad"):
-            INLINE_IMAGES[_inline(c)] = v
+        v = inline_image(c, record=False)
+        if v[0] == "ok":
+            INLINE_IMAGES[c] = v
             return v
     return ("unknown", "no inline minimum image found")
 
